@@ -25,9 +25,11 @@ EVIDENCE = {
             'connect sequence) after which every file written in that life keeps a seeded prefix, optionally followed by a '
             'zero or garbage tail.  In a fifth of the later lives the cache files of the announced checksums are removed or '
             'made unreadable by somebody else after the Crazyflie object listed them (before open_link, or between two '
-            'connections of one object).',
+            'connections of one object).  In 15 % of the lives a second Crazyflie object of the same process connects to '
+            'the other firmware at the same time over the same cache directories (file-system calls are scheduling points).',
     'directed': 'every byte offset of the log-table and parameter-table cache files of a small firmware (crash after a '
-                'complete first connect), followed by a reconnect',
+                'complete first connect), followed by a reconnect; two objects filling one read-write directory at the same '
+                'virtual instant with tables of equal size (24 / 120 schedules), then a cached connection to each firmware',
     'real': ['TocCache (fetch/insert/_encoder/_decoder)', 'TocFetcher', 'Log.refresh_toc', 'Param.refresh_toc',
              '_ExtendedTypeFetcher', 'json', 'Crazyflie connection sequence'],
     'stub': ['SimFS (open/glob/os.path.exists/os.makedirs seams of cflib.crazyflie.toccache)', 'SimLink', 'SimCF'],
@@ -84,6 +86,10 @@ def gen(seed):
                 'crash': None}
         if rng.random() < 0.15:
             life['twin'] = True
+        if li > 0 and rng.random() < 0.15:
+            # the cache files of this firmware were written by another version of the library: well-formed JSON of the
+            # same shape, but every element lacks one of the fields the current format has
+            life['foreign'] = rng.choice(['extended', 'extended', 'access', 'pytype', 'ident', 'ctype'])
         if li > 0 and rng.random() < 0.2:
             # somebody cleans the cache directory (or changes its permissions) after the Crazyflie object was created
             life['vanish'] = {'which': rng.choice(['log', 'param', 'both']), 'how': rng.choice(['removed', 'unreadable']),
@@ -200,6 +206,27 @@ def run_life(ctx, sim, fs, plan, li, life, complete, Crazyflie):
         rw = '/ro'                       # this life populates what later lives mount read-only
     # the read-only root is only protected while it is mounted read-only
     fs.ro_root = '/ro' if dirs != 'seed-ro' else '/__none__'
+    if life.get('foreign'):
+        import json as _json
+        key = life['foreign']
+        names = ('%08X.json' % dev.log_crc, '%08X.json' % dev.param_crc)
+
+        def strip(o):
+            if isinstance(o, dict):
+                if '__class__' in o:
+                    return {k: v for k, v in o.items() if k != key}
+                return {k: strip(v) for k, v in o.items()}
+            return o
+        for pth in sorted(fs.files):
+            if pth.endswith(names):
+                try:
+                    doc = _json.loads(fs.files[pth].decode('latin1'))
+                except Exception:
+                    continue
+                new = _json.dumps(strip(doc), indent=2).encode('latin1')
+                if new != fs.files[pth] and _json.loads(new) != doc:
+                    fs.files[pth] = new
+                    ctx.probe('cache file of another library version (no %r field)' % key)
     snapshot = dict(fs.files)
     st = {}
     crash = life.get('crash')
